@@ -168,6 +168,8 @@ def make_read(rng, k, ads, C, side=1):
                 # the given orientation holds one complete copy as well: the reverse complement is better only
                 # by its total over several rounds
                 seq = (parts[0] + seq) if ad["opt"] == "g" else (seq + parts[0])
+    if C.get("_rna") and rng.random() < 0.7:
+        seq = seq.replace("T", "U").replace("t", "u")          # RNA alphabet: U is complemented to A, matches like T
     if C.get("polya") and rng.random() < 0.6:
         tail = ["A"] * rng.choice((2, 3, 5, 8, 10))
         if rng.random() < 0.4:
@@ -222,12 +224,13 @@ SCENARIOS = {
             dict(linked=True, times=2, n_ads=3), dict(n_ads=4, times=3), dict(n_ads=3, action="mask", times=2),
             dict(n_ads=3, action="lowercase", times=3), dict(linked=True, action="retain"), dict(paired=True, times=2, n_ads=2),
             dict(paired=True, times=2, n_ads=2, repeat=True, r2_front=True), dict(paired=True, times=3, n_ads=1, repeat=True, r2_front=True),
-            dict(n_ads=2, same_family=True), dict(n_ads=3, same_family=True, times=2)],
-    "C16": [dict(revcomp=True, cores=2, buffer_size=300, n_reads=16), dict(revcomp=True, cores=3, buffer_size=250, n_reads=18, paired=True),
+            dict(n_ads=2, same_family=True), dict(n_ads=3, same_family=True, times=2),
+            dict(linked_vs_single=True, times=1), dict(linked_vs_single=True, times=2, action="lowercase")],
+    "C16": [dict(revcomp=True, rna=True), dict(revcomp=True, rna=True, times=2), dict(revcomp=True, cores=2, buffer_size=300, n_reads=16), dict(revcomp=True, cores=3, buffer_size=250, n_reads=18, paired=True),
             dict(revcomp=True, paired=True), dict(revcomp=True, times=2), dict(revcomp=True, error_rate=0.7, overlap=1),
             dict(revcomp=True, times=2, n_ads=1, repeat=True), dict(revcomp=True, times=3, n_ads=2, repeat=True),
             dict(revcomp=True, action="mask"), dict(revcomp=True, paired=True, action="lowercase"), dict(revcomp=True, same_family=True, n_ads=2)],
-    "C05": [dict(paired=True, pairads=True), dict(paired=True, pairads=True, dup_both=True, n_ads=3, rename="{id} a={r1.adapter_name} b={r2.adapter_name}"),
+    "C05": [dict(paired=True, info=True, dimers=True), dict(paired=True, aux=True, dimers=True, minlen="1", tooshortout=True), dict(paired=True, pairads=True), dict(paired=True, pairads=True, dup_both=True, n_ads=3, rename="{id} a={r1.adapter_name} b={r2.adapter_name}"),
             dict(paired=True, pairads=True, dup_both=True, n_ads=3, demux="normal"),
             dict(paired=True, pairads=True, same_r1=True, demux="normal", n_ads=2),
             dict(paired=True, pairads=True, same_r1=True, n_ads=3, rename="{id} a={r1.adapter_name} b={r2.adapter_name}"),
@@ -237,8 +240,10 @@ SCENARIOS = {
             dict(paired=True, pairads=True, same_r1=True, demux="normal", n_ads=2), dict(paired=True, pairads=True, same_r1=True, n_ads=3, rename="{id} a={r1.adapter_name} b={r2.adapter_name}"), dict(paired=True, demux="combi"), dict(paired=True, untrimout=True, pairfilter="both")],
     "C11": [dict(maxee="1", maxaer="0.05"), dict(paired=True, pairfilter="both", duntrim=True), dict(paired=True, only_r2=True, duntrim=True),
             dict(action="lowercase", maxn=(1, 1, "1")), dict(minlen="8", maxlen="14", maxn=(0, 1, "0"), casava=True),
-            dict(paired=True, pairfilter="both", dtrim=True), dict(untrimout=True, minlen="5"), dict(paired=True, pairfilter="first", untrimout=True)],
-    "C15": [dict(demux="combi", paired=True, revcomp=True), dict(demux="normal", paired=True, revcomp=True), dict(demux="normal", revcomp=True, times=2),
+            dict(paired=True, pairfilter="both", dtrim=True), dict(untrimout=True, minlen="5"), dict(paired=True, pairfilter="first", untrimout=True),
+            dict(casava=True, rename="{comment}_{id}"), dict(casava=True, rename="{comment}_{id}", paired=True, pairfilter="both")],
+    "C15": [dict(demux="normal", dupseq=True, n_ads=3), dict(demux="combi", paired=True, dupseq=True, n_ads=2), dict(demux="normal", dupseq=True, n_ads=2, paired=True, duntrim=True),
+            dict(demux="combi", paired=True, revcomp=True), dict(demux="normal", paired=True, revcomp=True), dict(demux="normal", revcomp=True, times=2),
             dict(demux="normal", dupname=True, n_ads=3), dict(demux="normal", dupname=True, n_ads=2, paired=True),
             dict(demux="normal", times=2, n_ads=3), dict(demux="combi", paired=True, times=2), dict(demux="normal", casava=True),
             dict(demux="normal", paired=True, untrimout=True), dict(demux="normal", duntrim=True), dict(demux="combi", paired=True, duntrim=True),
@@ -255,7 +260,8 @@ SCENARIOS = {
             dict(paired=True, cut1=[2, -2], cut2=[-3, 2], rename="{id} {r1.cut_prefix}.{r1.cut_suffix}|{r2.cut_prefix}.{r2.cut_suffix}", short_reads=True),
             dict(lengthtag="length=", rename="{header} x", cut1=[3]), dict(strip=[".x"], rename="{header}|{id}", trimn=True),
             dict(paired=True, len1=8, len2=0), dict(paired=True, len1=10), dict(nextseq=20, q="20"), dict(nextseq=20, q="10", paired=True, Q="20"),
-            dict(cut1=[30], lengthtag="length="), dict(polya=True, len1=10, trimn=True), dict(cut1=[3, -2], q="10,10")],
+            dict(cut1=[30], lengthtag="length="), dict(polya=True, len1=10, trimn=True), dict(cut1=[3, -2], q="10,10"),
+            dict(paired=True, q="15,20", Q="25", nextseq=None), dict(paired=True, q="12,10", Q="9", nextseq=None), dict(paired=True, q="15", Q="12,25", nextseq=None)],
     "C20": [dict(linked=True, revcomp=True, cores=2, buffer_size=300, n_reads=16), dict(linked=True, revcomp=True, cores=3, buffer_size=250, n_reads=18),
             dict(revcomp=True, times=3, n_ads=1, repeat=True), dict(revcomp=True, times=2, n_ads=2, repeat=True), dict(times=3, n_ads=1, repeat=True),
             dict(error_rate=0.12), dict(error_rate=0.15, n_ads=2), dict(error_rate=0.3), dict(error_rate=0.34, times=2),
@@ -358,12 +364,27 @@ def _random_config(rng, focus, S):
         order = rng.choice(([0, 1, 2], [2, 1, 0], [0, 2, 1], [2, 0, 1]))
         ads = [dict(opt=opt, seq=trio[i], restr=None, name=None) for i in order]
         S = dict(S, _embed=stretch)
+    if S.get("linked_vs_single"):
+        # a linked adapter whose 5' part alone scores lower and whose two parts together score higher than a
+        # competing single adapter that occurs in the same read: the total of both parts decides
+        def rnd(n):
+            return "".join(rng.choice("ACGT") for _ in range(n))
+        F, B, Sg = rnd(rng.choice((4, 5))), rnd(rng.choice((9, 10, 12))), rnd(rng.choice((6, 7, 8)))
+        fpart, bpart = dict(opt="g", seq=F, restr=None), dict(opt="g", seq=B, restr=None)
+        ads = [dict(linked=(fpart, bpart), name=None), dict(opt=rng.choice(("a", "g")), seq=Sg, restr=None, name=None)]
+        if rng.random() < 0.5:
+            ads.reverse()
+        S = dict(S, _embed=F + rnd(rng.randint(0, 3)) + Sg + rnd(rng.randint(0, 2)) + B)
     if S.get("same_family"):
         # adapters that are near-identical: equal scores, different error counts, ties
         base = pick(rng, ADAPTERS)
         opt = rng.choice(("a", "a", "g", "b"))
         ads = [dict(opt=opt, seq=base, restr=None, name=None), dict(opt=opt, seq=mutate(rng, base, 1), restr=None, name=None)] + \
               ([dict(opt=opt, seq=base[:-2], restr=None, name=None)] if n_ads > 2 else [])
+    if S.get("dupseq") and len(ads) >= 2:
+        # one barcode given to two samples: the same adapter twice under two names (the second can never win,
+        # its output file exists nevertheless)
+        ads[-1] = dict(ads[0], name=ads[-1].get("name"))
     if S.get("dupname") and len(ads) >= 2:
         for a in ads[1:2]:
             a["name"] = ads[0].get("name") or NAMES[0]
@@ -419,6 +440,8 @@ def _random_config(rng, focus, S):
             C["_repeat"] = True
         if S.get("dimers"):
             C["_dimers"] = True
+        if S.get("rna"):
+            C["_rna"] = True
         if S.get("back_optional"):
             C["_onlyfront"] = True
         if S.get("_embed"):
@@ -615,6 +638,9 @@ def drive(ctx, focus, n_runs, want, reads_per_run=(5, 9), config_hook=None, extr
             continue
         ev["id"] = len(events)
         ev["want"] = list(want) + (["info"] if C.get("info") else []) + (["aux"] if C.get("aux") else [])
+        if "report_crash" in ev:
+            failed.append(dict(ev, failed=ev["report_crash"]))
+            ev["want"] = [w for w in ev["want"] if w not in ("report", "stats")]
         events.append(ev)
         samplers[ev["id"]] = sampler
     res = GR.validate_runs(ctx, events, samplers)
@@ -637,6 +663,7 @@ def drive(ctx, focus, n_runs, want, reads_per_run=(5, 9), config_hook=None, extr
     ctx.extra["paired_runs"] = sum(1 for e in events if e["cfg"]["paired"])
     ctx.extra["reads_written_to_a_file"] = sum(1 for e in events for rd in e["reads"] if rd["obs"]["dest"] != "none")
     ctx.extra["runs_with_matches"] = sum(1 for e in events if e["report"]["with1"] > 0 or e["report"]["with2"] > 0)
+    ctx.extra["runs_judged_without_report_after_report_crash"] = sum(1 for e in events if "report_crash" in e)
     return events, out, failed
 
 
